@@ -126,6 +126,9 @@ func drawMerkleOps(t *sim.Tape) []merkleOp {
 			op.n = pick(t, t.Range(1, 33), t.Range(1, 33), t.Range(1, 300), t.Range(300, 5000), 1<<uint(t.Range(0, 12)))
 			op.start = uint64(t.Choose(op.n))
 			op.end = op.start + uint64(t.Range(1, op.n-int(op.start)))
+			if t.Chance(1, 3) {
+				op.end = op.start + 1
+			}
 		case 4:
 			op.kind = "append"
 			op.n = pick(t, t.Range(0, 33), t.Range(0, 300), 1<<uint(t.Range(0, 10)))
@@ -424,6 +427,14 @@ func runMerkle(s *Session, ops []merkleOp) {
 				}
 				if rhp4.VerifySectorRootsProof(append(append([]types.Hash256(nil), proof...), types.Hash256{}), rng, uint64(op.n), op.start, op.end, root) {
 					bad("roots-proof-unsound", "lengthened sector roots proof accepted (n=%d,[%d,%d))", op.n, op.start, op.end)
+				}
+				if op.end == op.start+1 {
+					// a single root: the consensus ordering of its proof is the bottom-up audit path
+					conv := rhp2.ConvertProofOrdering(proof, op.start)
+					if fmt.Sprint(conv) != fmt.Sprint(ref.TreePath(roots, int(op.start))) {
+						bad("proof-ordering", "ConvertProofOrdering of the proof for root %d of %d is not the bottom-up audit path (%d hashes in, %d out)", op.start, op.n, len(proof), len(conv))
+					}
+					e.inc("merkle.ordering-checked")
 				}
 				e.inc("merkle.corruptions")
 				e.reachAdd(fmt.Sprintf("roots n=%d s=%d e=%d", min(op.n, 40), min(op.start, 40), min(op.end, 40)))
